@@ -8,6 +8,7 @@
  *   cconn <outbound> <l4proto> <dport> <v4 0/1>                      wan_outbound_is_alive: map key used
  *   clisten <l4proto> <v6 0/1>                                       assign_listener: map key used
  *   croute le <saddr16> <daddr16> <mac16>                            route(): domain_routing_map / LPM keys
+ *   cmacsite le <lan|wan_tcp|wan_udp> <mac6>                          the three callers of route(): MAC LPM key
  *   creadidx le <hex16> | creadpr le <hex16>                         match_set->index / port_range
  *
  * BPF helpers are stubs; bpf_map_lookup_elem records the key it is given.  croute reports the keys by
@@ -31,6 +32,19 @@ static __u32 g_rules_len;
 static __u32 g_one = 1;
 static struct route_ctx g_route_ctx;
 static unsigned char g_scratch[4096];
+/* per-CPU scratch maps of the kernel program: one static buffer per map */
+static struct { void *map; unsigned char buf[4096] __attribute__((aligned(16))); } g_percpu[8];
+static unsigned char g_pkt[256];
+static unsigned g_pktlen;
+
+static void *percpu_buf(void *map)
+{
+	for (unsigned i = 0; i < 8; i++) {
+		if (g_percpu[i].map == map) return g_percpu[i].buf;
+		if (!g_percpu[i].map) { g_percpu[i].map = map; return g_percpu[i].buf; }
+	}
+	return NULL;
+}
 
 static void rec_key(void *map, const void *key, unsigned len)
 {
@@ -72,13 +86,21 @@ void *bpf_map_lookup_elem(void *map, const void *key)
 		rec_key(map, key, 16);
 		return NULL;
 	}
+	if (map == &pkt_scratch_map || map == &parse_ctx_scratch_map || map == &wan_egress_route_scratch_map ||
+	    map == &conntrack_args_map)
+		return percpu_buf(map);
 	memset(g_scratch, 0, sizeof(g_scratch));
 	return NULL;
 }
 long bpf_map_update_elem(void *map, const void *key, const void *value, __u64 flags) { return 0; }
 long bpf_map_delete_elem(void *map, const void *key) { return 0; }
 __u64 bpf_ktime_get_ns(void) { return 1; }
-long bpf_skb_load_bytes(const void *skb, __u32 offset, void *to, __u32 len) { return -1; }
+long bpf_skb_load_bytes(const void *skb, __u32 offset, void *to, __u32 len)
+{
+	if ((unsigned long)offset + len > g_pktlen) return -14;
+	memcpy(to, g_pkt + offset, len);
+	return 0;
+}
 long bpf_skb_store_bytes(void *skb, __u32 offset, const void *from, __u32 len, __u64 flags) { return -1; }
 long bpf_skb_pull_data(void *skb, __u32 len) { return -1; }
 long bpf_skb_change_type(void *skb, __u32 type) { return 0; }
@@ -117,6 +139,29 @@ long bpf_core_read_user_str(void *dst, __u32 sz, const void *src) { return 0; }
 #define C19_MAP_KEY(m) sizeof(*(m).key)
 #define C19_MAP_VAL(m) sizeof(*(m).value)
 #include "c19_gen.inc"
+
+static void set_probe_rules(void)
+{
+	memset(g_rules, 0, sizeof(g_rules));
+	g_rules[0].type = MatchType_DomainSet;   g_rules[0].outbound = 2;
+	g_rules[1].type = MatchType_IpSet;       g_rules[1].outbound = 2; g_rules[1].index = 5;
+	g_rules[2].type = MatchType_SourceIpSet; g_rules[2].outbound = 2; g_rules[2].index = 6;
+	g_rules[3].type = MatchType_Mac;         g_rules[3].outbound = 2; g_rules[3].index = 7;
+	g_rules[4].type = MatchType_Fallback;    g_rules[4].outbound = 0;
+	g_rules_len = 5;
+}
+
+/* the LPM key looked up in the trie whose index (lpm_array_map key) is `want` */
+static const unsigned char *lpm_key_for(__u32 want)
+{
+	__u32 last_idx = 0xffffffff;
+
+	for (unsigned i = 0; i < g_nkeys; i++) {
+		if (g_keymap[i] == &lpm_array_map) last_idx = *(__u32 *)g_keys[i];
+		else if (g_keymap[i] == &g_lpm_token && last_idx == want) return g_keys[i];
+	}
+	return NULL;
+}
 
 /* ------------------------------------------------------------------ ops */
 static int hexval(int c)
@@ -228,13 +273,7 @@ int main(void)
 			memset(flag, 0, sizeof(flag)); memset(&tcph, 0, sizeof(tcph));
 			flag[0] = L4ProtoType_TCP; flag[1] = IpVersionType_6;
 			tcph.source = bpf_htons(1000); tcph.dest = bpf_htons(2000);
-			memset(g_rules, 0, sizeof(g_rules));
-			g_rules[0].type = MatchType_DomainSet;   g_rules[0].outbound = 2;
-			g_rules[1].type = MatchType_IpSet;       g_rules[1].outbound = 2; g_rules[1].index = 5;
-			g_rules[2].type = MatchType_SourceIpSet; g_rules[2].outbound = 2; g_rules[2].index = 6;
-			g_rules[3].type = MatchType_Mac;         g_rules[3].outbound = 2; g_rules[3].index = 7;
-			g_rules[4].type = MatchType_Fallback;    g_rules[4].outbound = 0;
-			g_rules_len = 5;
+			set_probe_rules();
 			(void)route(flag, &tcph, sa, da, ma);
 			/* The property speaks about the KEYS, not about how often or in which order route() looks
 			 * them up: take the first domain_routing_map key, and for each LPM lookup the trie index
@@ -261,6 +300,56 @@ int main(void)
 					printf("missing-lookups n=%u dom=%d d=%d s=%d m=%d", g_nkeys, !!dom, !!kd, !!ks, !!km);
 				}
 			}
+		} else if (!strcmp(tok[0], "cmacsite") && nt == 4) {
+			/* the three callers of route() that pack the source MAC into mac_be:
+			 *   lan      do_tproxy_lan_ingress()      on an Ethernet/IPv4/UDP frame (parsed by the real slow path)
+			 *   wan_tcp  do_tproxy_wan_egress_tcp()   on a SYN
+			 *   wan_udp  do_tproxy_wan_egress_udp()
+			 * reported: the LPM key route() looks up for the mac() rule */
+			unsigned char mac[6];
+			struct __sk_buff skb;
+			const unsigned char *km;
+
+			if (unhex(tok[3], mac, 6) != 6) { printf("bad-op\n"); continue; }
+			memset(&skb, 0, sizeof(skb));
+			skb.protocol = bpf_htons(ETH_P_IP);
+			set_probe_rules();
+			if (!strcmp(tok[2], "lan")) {
+				struct ethhdr *eth = (struct ethhdr *)g_pkt;
+				struct iphdr *ip = (struct iphdr *)(g_pkt + 14);
+				struct udphdr *udp = (struct udphdr *)(g_pkt + 34);
+
+				memset(g_pkt, 0, sizeof(g_pkt));
+				memset(eth->h_dest, 0x02, 6); memcpy(eth->h_source, mac, 6); eth->h_proto = bpf_htons(ETH_P_IP);
+				ip->version = 4; ip->ihl = 5; ip->ttl = 64; ip->protocol = IPPROTO_UDP; ip->tot_len = bpf_htons(28);
+				ip->saddr = bpf_htonl(0x0a000001); ip->daddr = bpf_htonl(0x08080808);
+				udp->source = bpf_htons(40000); udp->dest = bpf_htons(4000); udp->len = bpf_htons(8);
+				g_pktlen = 42; skb.len = 42;
+				(void)do_tproxy_lan_ingress(&skb, 14);
+			} else {
+				struct tuples tuples;
+				struct ethhdr ethh;
+				struct tcphdr tcph;
+				struct udphdr udph;
+
+				memset(&tuples, 0, sizeof(tuples)); memset(&ethh, 0, sizeof(ethh));
+				memset(&tcph, 0, sizeof(tcph)); memset(&udph, 0, sizeof(udph));
+				memcpy(ethh.h_source, mac, 6); ethh.h_proto = bpf_htons(ETH_P_IP);
+				tuples.five.sip.u6_addr32[2] = bpf_htonl(0xffff); tuples.five.sip.u6_addr32[3] = bpf_htonl(0x0a000001);
+				tuples.five.dip.u6_addr32[2] = bpf_htonl(0xffff); tuples.five.dip.u6_addr32[3] = bpf_htonl(0x08080808);
+				tuples.five.sport = bpf_htons(40000); tuples.five.dport = bpf_htons(4000);
+				if (!strcmp(tok[2], "wan_tcp")) {
+					tuples.five.l4proto = IPPROTO_TCP;
+					tcph.syn = 1; tcph.source = tuples.five.sport; tcph.dest = tuples.five.dport;
+					(void)do_tproxy_wan_egress_tcp(&skb, 14, &tuples, &ethh, &tcph);
+				} else if (!strcmp(tok[2], "wan_udp")) {
+					tuples.five.l4proto = IPPROTO_UDP;
+					udph.source = tuples.five.sport; udph.dest = tuples.five.dport;
+					(void)do_tproxy_wan_egress_udp(&skb, 14, &tuples, &ethh, &udph);
+				} else { printf("bad-op\n"); continue; }
+			}
+			km = lpm_key_for(7);
+			if (km) puthex(km, sizeof(struct lpm_key)); else printf("route-not-reached n=%u", g_nkeys);
 		} else if (!strcmp(tok[0], "creadidx") && nt == 3) {
 			struct match_set ms;
 
